@@ -138,12 +138,24 @@ impl Runtime {
 
     fn enter_indirect(&mut self, line: Line) {
         self.cont = State::Stopped;
-        if line.is_empty() {
-            self.dirty = self.listing.remove(line.number()).is_some();
+        let changed = if line.is_empty() {
+            self.listing.remove(line.number()).is_some()
         } else {
             self.listing.insert(line);
-            self.dirty = true;
+            true
+        };
+        if changed {
+            self.listing_changed();
         }
+    }
+
+    /// The compiled program no longer matches the listing. Recompile before
+    /// the next use and drop everything that points into the old compile.
+    fn listing_changed(&mut self) {
+        self.dirty = true;
+        self.cont = State::Stopped;
+        self.stack.clear();
+        self.functions.clear();
     }
 
     fn enter_inkey(&mut self, mut string: &str) {
@@ -620,7 +632,7 @@ impl Runtime {
             return Err(error!(IllegalFunctionCall));
         }
         if self.listing.remove_range(from..=to) {
-            self.dirty = true;
+            self.listing_changed();
             self.state = State::Stopped;
         }
         Ok(self.r#end())
@@ -834,7 +846,7 @@ impl Runtime {
         let old_start = u16::try_from(self.stack.pop()?)?;
         let new_start = u16::try_from(self.stack.pop()?)?;
         self.listing.renum(new_start, old_start, step)?;
-
+        self.listing_changed();
         self.state = State::Stopped;
         Ok(self.r#end())
     }
